@@ -84,6 +84,8 @@ class Register:
             ):
                 if alias_slice.stop > alias_from.size:
                     raise JaqalError("Index out of range.")
+                if (alias_slice.start or 0) < 0 or alias_slice.stop < 0:
+                    raise JaqalError("Index out of range.")
 
     def __hash__(self):
         return hash((self.__class__, self._name, self._size))
